@@ -5,7 +5,9 @@ import DateutilVerif.Properties.C04
 #print axioms C04.roundtrip_fixed
 #print axioms C04.inj_fixed
 #print axioms C04.offset_in_force_fixed
+#print axioms C04.roundtrip_range_general
 #print axioms C04.roundtrip_range
+#print axioms C04.roundtrip_notrans
 #print axioms C04.roundtrip_range_partial
 #print axioms C04.roundtrip_range_norule
 #print axioms C04.roundtrip_generic
